@@ -8,8 +8,10 @@ from ..common import NPROC, HarnessError, Report, Violation, short
 
 PROP = "C16"
 CMD = "1;255;3;0;6;M\n"
+CMD2 = "22;7;1;0;2;55\n"
+CMD3 = "33;7;1;0;2;0\n"
 TRACE = ("mysensors/transport.py", "mysensors/task.py")
-TRACE_BY_HARNESS = {"H8-tcp-write-vs-disconnect": ("mysensors/transport.py",)}
+TRACE_BY_HARNESS = {"H8-tcp-write-vs-disconnect": ("mysensors/transport.py",), "H9-tcp-send-buffer-full": ("mysensors/transport.py",)}
 
 
 class Conn:
@@ -156,6 +158,36 @@ def h_producers(sched):
     sched.block(lambda: not tp.alive, ("join-pump",))
 
 
+def h_pump_vs_lost(sched):
+    """H10: two commands are queued; the real poll loop drains them while the reader thread reports a link
+    failure (reconnect follows). The pump must survive, and every command reaches a connection at most once."""
+    log = sched.log
+    gw, transport, conn = make_gateway(log)
+    tasks = gw.tasks
+    proto = transport.protocol
+    tasks.add_job(str, CMD)
+    tasks.add_job(str, CMD2)
+
+    def pump():
+        try:
+            tasks._poll_queue()
+        except Exception as exc:  # pylint: disable=broad-except
+            log.append(("pump-raised", type(exc).__name__, str(exc)[:120], S._site(exc)))
+
+    def reader():
+        try:
+            proto.connection_lost(OSError("read failed (harness)"))
+        except Exception as exc:  # pylint: disable=broad-except
+            log.append(("event-raised", type(exc).__name__, str(exc)[:120], S._site(exc)))
+
+    tp = sched.spawn(pump, "pump")
+    t2 = sched.spawn(reader, "event")
+    sched.block(lambda: not t2.alive and (not tasks.queue or not tp.alive), ("drained",))
+    tasks._stop_event.set()
+    sched.block(lambda: not tp.alive, ("join-pump",))
+    sched.block(lambda: all(not t.alive for t in sched.threads[1:]), ("join-rest",))
+
+
 def h_two_sends_first_fails(sched):
     """H7: the first write fails (send closes the link and asks for a reconnect); the reader thread then
     reports the loss without error; a second command follows. A command must never be written to a
@@ -188,9 +220,11 @@ def h_two_sends_first_fails(sched):
     sched.block(lambda: all(not t.alive for t in sched.threads[1:]), ("join-rest",))
 
 
-def h_tcp_write_vs_disconnect(sched):
+def h_tcp_write_vs_disconnect(sched, partial=False):
     """H8: the real TCPTransport (reader thread started by the real connect loop) on a fake socket whose
-    sendall takes two steps; a user disconnect() from another thread must not cut a write in half."""
+    sendall takes two steps; a user disconnect() from another thread must not cut a write in half.
+    H9 (partial=True): no second actor; the send buffer of the non-blocking socket runs full in the middle of the
+    second of three commands (sendall has handed over a prefix, then raises BlockingIOError)."""
     import socket as _socket
     import types
 
@@ -208,6 +242,10 @@ def h_tcp_write_vs_disconnect(sched):
             if self.closed:
                 raise OSError("sendall on closed socket")
             log.append(("sendall-begin", self.idx, bytes(data)))
+            if partial and bytes(data) == CMD2.encode() and not env.__dict__.get("buffer_was_full"):
+                env.buffer_was_full = True
+                log.append(("write-partial", f"s{self.idx}", bytes(data)[:6]))
+                raise BlockingIOError(11, "Resource temporarily unavailable (harness: send buffer full)")
             sched.point(("sock.sendall-middle", self.idx))
             if self.closed:
                 log.append(("sendall-cut-off", self.idx, bytes(data)[: len(data) // 2]))
@@ -232,11 +270,14 @@ def h_tcp_write_vs_disconnect(sched):
 
     def sender():
         try:
-            transport.send(CMD)
+            for cmd in (CMD, CMD2, CMD3) if partial else (CMD,):
+                transport.send(cmd)
         except Exception as exc:  # pylint: disable=broad-except
             log.append(("send-raised", type(exc).__name__, str(exc)[:120], S._site(exc)))
 
     def other():
+        if partial:
+            return
         try:
             transport.disconnect()
         except Exception as exc:  # pylint: disable=broad-except
@@ -260,6 +301,8 @@ HARNESSES = {
     "H5-producers-vs-pump": h_producers,
     "H7-two-sends-first-fails": h_two_sends_first_fails,
     "H8-tcp-write-vs-disconnect": h_tcp_write_vs_disconnect,
+    "H9-tcp-send-buffer-full": lambda sched: h_tcp_write_vs_disconnect(sched, partial=True),
+    "H10-pump-vs-lost-error": h_pump_vs_lost,
 }
 
 
@@ -280,7 +323,7 @@ def judge(hname, sched):
             out.append((e[0], f"{e[1]}@{e[3]}", f"{e[1]}: {e[2]} escaped at {e[3]}"))
         if e[0] == "thread-exception" and e[1] in ("sender", "pump"):
             out.append(("send-raised", f"{e[2]}@{e[4]}", f"{e[2]}: {e[3]}"))
-    if sched.problem == "deadlock" and hname.startswith("H8") and not sched.threads[0].alive:
+    if sched.problem == "deadlock" and hname.startswith(("H8", "H9")) and not sched.threads[0].alive:
         # the harness body finished; what remains is a library connect thread waiting for a reader thread that
         # died because disconnect() raced with a reconnect - it cannot write any more (informational, see C20)
         pass
@@ -298,6 +341,24 @@ def judge(hname, sched):
                 begun = e
             if e[0] == "write-on-closed" and begun is not None and e[1] in begun[2] and e[2] == begun[1].encode():
                 out.append(("write-to-connection-already-reported-lost", "", f"{begun[1]!r} was written to {e[1]} although the loss of {e[1]} had been processed before that send began"))
+        return out
+    if hname.startswith("H9"):
+        # what the peer sees per connection: complete commands, each at most once overall, in order; the prefix of
+        # a command whose send failed may only be the last thing on a connection
+        partial_on = None
+        seen = []
+        for e in log:
+            if e[0] == "write-partial":
+                partial_on = e[1]
+            if e[0] == "write":
+                if partial_on is not None and e[1] == partial_on:
+                    out.append(("bytes-after-failed-partial-write", "", f"{e[2]!r} written to {e[1]} after only a prefix of the previous command had gone out on it: the peer reads a garbled line"))
+                seen.append(e[2])
+        if len(seen) != len(set(seen)):
+            out.append(("command-written-twice", "", f"commands written: {seen}"))
+        order = [c.encode() for c in (CMD, CMD2, CMD3)]
+        if [c for c in order if c in seen] != seen:
+            out.append(("partial-or-foreign-write", "", f"commands written: {seen}"))
         return out
     if hname.startswith("H8"):
         mine = [e for e in writes if e[2] == CMD.encode()]
@@ -318,8 +379,14 @@ def judge(hname, sched):
         if len(mine) > 1:
             out.append(("command-written-twice", "", f"command written {len(mine)} times: {mine}"))
         for e in writes:
-            if e[2] not in (CMD.encode(),):
+            if e[2] not in ((CMD.encode(), CMD2.encode()) if hname.startswith("H10") else (CMD.encode(),)):
                 out.append(("partial-or-foreign-write", "", f"unexpected write {e}"))
+        if hname.startswith("H10"):
+            two = [e for e in writes if e[2] == CMD2.encode()]
+            if len(two) > 1:
+                out.append(("command-written-twice", "", f"command written {len(two)} times: {two}"))
+            if mine and two and log.index(two[0]) < log.index(mine[0]):
+                out.append(("queue-order", "", "second queued command written before the first"))
     return out
 
 
@@ -374,7 +441,7 @@ def _merge(dst, src):
             dst["found"][sig] = val
 
 
-BOUNDS = {"quick": {"default": 2, "H5-producers-vs-pump": 1, "H8-tcp-write-vs-disconnect": 2}, "thorough": {"default": 3, "H5-producers-vs-pump": 2, "H8-tcp-write-vs-disconnect": 3}}
+BOUNDS = {"quick": {"default": 2, "H5-producers-vs-pump": 1, "H8-tcp-write-vs-disconnect": 2, "H9-tcp-send-buffer-full": 1, "H10-pump-vs-lost-error": 1}, "thorough": {"default": 3, "H5-producers-vs-pump": 2, "H8-tcp-write-vs-disconnect": 3, "H9-tcp-send-buffer-full": 2, "H10-pump-vs-lost-error": 2}}
 
 
 def run(tier):
